@@ -439,9 +439,55 @@ def fixture(ctx, _):
     ctx.engine("fixture-sequences", words=n)
 
 
+def pumped_words(rn, lengths=(257, 300, 1025)):
+    """member words made very long by repeating a child the rule allows without bound (257, 300 and 1 025 times): real
+    documents have parents with hundreds of children, exhaustive enumeration stops at a handful"""
+    spec, alpha, mixed, dfa = lang.rule_lang(RULES, rn)
+    out = []
+    live = dfa.live()
+    comp = completion(rn)
+    # breadth-first: shortest path to every live state
+    path = {dfa.start: []}
+    queue = [dfa.start]
+    while queue:
+        nxt = []
+        for s_ in queue:
+            for a in alpha[:-1]:
+                t = dfa.trans[(s_, a)]
+                if t in live and t not in path:
+                    path[t] = path[s_] + [a]
+                    nxt.append(t)
+        queue = nxt
+    for s_, prefix in sorted(path.items(), key=lambda kv: len(kv[1])):
+        for a in alpha[:-1]:
+            if dfa.trans[(s_, a)] == s_ and s_ in comp:
+                for n in lengths:
+                    out.append(tuple(prefix + [a] * n + list(comp[s_])))
+                break
+        if len(out) >= 2 * len(lengths):
+            break
+    return out
+
+
+def pumped_task(ctx, rns):
+    n = 0
+    for rn in rns:
+        r = Runner(rn)
+        for w in pumped_words(rn, (257, 300) if ctx.quick else (257, 300, 1025)):
+            n += 1
+            ctx.count("very-long-word(>=257 children)")
+            if n <= 2:
+                ctx.sample("pumped", {"rule": rn, "length": len(w), "first": list(w[:3]), "last": list(w[-3:])})
+            check_word(ctx, r, w, count=False)
+    ctx.bulk(n, n)
+    ctx.engine("pumped-words", words=n)
+
+
 def run(ctx):
     ctx.pmap(task, plan(ctx.quick))
     ctx.pmap(hyp_shard, range(16))
+    names = [rn for rn in sorted(RULES) if len(alphabet(rn)) > 1]
+    ctx.pmap(pumped_task, [names[i::16] for i in range(16) if names[i::16]])
     fixture(ctx, None)
 
 
